@@ -163,3 +163,15 @@ def gen_storage(items):
             raise Fail(f'{f}::register_file_as_managed no longer inserts the path before persisting the list')
         return DL('MANAGED_OPEN_WRITE_STEPS', codes, 'managed_directory.rs::open_write in source order: 1 register_file_as_managed (insert + save_managed_paths), 2 create the file in the wrapped directory')
     items.append(managed_open_write)
+
+    def meta_sources():
+        f = 'src/index/index_meta.rs'
+        text = strip_comments(src(f))
+        n_track = len(re.findall(r'inventory\s*\.track\(', text))
+        n_map = len(re.findall(r'\.tracked\s*\.map\(', text))
+        for fn, pat in [('new_segment_meta', r'inventory\s*\.track\('), ('with_max_doc', r'tracked\s*\.map\('),
+                        ('with_delete_meta', r'tracked\s*\.map\('), ('deserialize', r'\.track\(inventory\)')]:
+            if not re.search(pat, fn_body(f, fn)):
+                raise Fail(f'{f}::{fn} no longer creates its tracked SegmentMeta the way the model assumes')
+        return DL('META_SOURCE_SITES', [n_track, n_map], 'index_meta.rs: number of `inventory.track(` sites (new_segment_meta, InnerSegmentMeta::track used by deserialize) and of `tracked.map(` sites (with_max_doc, with_delete_meta): the only places a tracked SegmentMeta comes to life')
+    items.append(meta_sources)
